@@ -100,12 +100,21 @@ def run_case(cs):
             nl = len(cs['F']) - 1
             a = np.zeros((1, nl, 1, 2), 'f')
             a[0, :, 0, 1] = cs['d']
+            newtop = cs.get('vt1', 0) != cs.get('vt0', 0)
             f = ioapi_base.from_arrays(
                 O3=a, fileattrs=dict(SDATE=2011001, STIME=0, TSTEP=10000,
                                      VGLVLS=np.array(cs['F'], 'f') / 8.,
-                                     VGTOP=5000.))
-            g = f.interpSigma(np.array(cs['T'], 'f') / 8.,
-                              interptype=cs['itype'])
+                                     VGTOP=float(cs['vt0']) if newtop
+                                     else 5000.))
+            if newtop:      # target edges relative to another model top
+                # (from_arrays resets VGTOP to its default)
+                f.VGTOP = np.float32(cs['vt0'])
+                g = f.interpSigma(np.array(cs['T'], 'f') / float(cs['k2']),
+                                  vgtop=float(cs['vt1']),
+                                  interptype=cs['itype'])
+            else:
+                g = f.interpSigma(np.array(cs['T'], 'f') / 8.,
+                                  interptype=cs['itype'])
             out = g.variables['O3'][0, :, 0, 1]
             tr['got'] = [fr(x, single=True) for x in np.asarray(out, 'd')]
     except Exception as ex:
@@ -172,7 +181,23 @@ def run(tier):
         if rnd.random() < (0.5 if tier == 'quick' else 1.0):
             apps.append({'kind': 'sig', 'F': c['F'], 'T': c['T'],
                          'itype': rnd.choice(['linear', 'conserve']),
-                         'd': [rnd.randint(1, 40) for _ in c['F'][:-1]]})
+                         'd': [rnd.randint(1, 40) for _ in c['F'][:-1]],
+                         'vt0': 5000, 'vt1': 5000, 'k2': 8})
+    # interpSigma to a grid relative to another model top (tops 60000 ->
+    # 18675 Pa: sigma' = (sigma + 1) / 2, exact in sixteenths); the target
+    # edges lie inside the converted source range
+    for c in [c for c in cases if c['kind'] == 'c']:
+        if rnd.random() < (0.5 if tier == 'quick' else 1.0):
+            lo, hi = c['F'][-1] + 8, c['F'][0] + 8
+            inner = [x for x in range(lo + 1, hi)]
+            k = rnd.randint(0, min(3, len(inner)))
+            T = sorted(rnd.sample(inner, k) + [lo, hi], reverse=True)
+            if rnd.random() < 0.3 and len(T) > 2:
+                T = T[1:]       # not sharing the bottom edge
+            apps.append({'kind': 'sig', 'F': c['F'], 'T': T,
+                         'itype': rnd.choice(['linear', 'conserve']),
+                         'd': [rnd.randint(1, 40) for _ in c['F'][:-1]],
+                         'vt0': 60000, 'vt1': 18675, 'k2': 16})
     # single-level sources / longer random grids beyond the model bound
     for i in range(50):
         apps.append({'kind': 'w', 'xs': [rnd.randint(0, 6)],
